@@ -87,6 +87,14 @@ mut("c09-bias-flag", "C09", IN, "    mjd_smooth_vel(m, d, /* flg_bias = */ 1);\n
 mut("c09-sign", "C09", IN, "    mju_addToScl(d->qLU, d->qDeriv, -m->opt.timestep, m->nD);", "    mju_addToScl(d->qLU, d->qDeriv, m->opt.timestep, m->nD);", "rule=R-SIBLING-GUARD construct=IMPLICIT:signs")
 mut("c09-no-restore", "C09", IN, "  mju_copy(d->efc_force, save_efc_force, nefc);\n", "", "rule=R-SAVE-RESTORE")
 
+PC_OLD = "    // re-gather island D/R\n    if (d->nisland) {\n      mju_gather(d->iefc_D, d->efc_D, d->map_iefc2efc, d->nefc);\n      mju_gather(d->iefc_R, d->efc_R, d->map_iefc2efc, d->nefc);\n    }\n"
+mut("c09-regather-dual-only", "C09", CC, PC_OLD, PC_OLD.replace("if (d->nisland) {", "if (d->nisland && isDual) {"), "rule=R-ISLAND-COPY construct=mj_projectConstraint:iefc_D~efc_D")
+mut("c09-regather-one-conditional", "C09", CC, PC_OLD, PC_OLD.replace("      mju_gather(d->iefc_R, d->efc_R, d->map_iefc2efc, d->nefc);\n", "      if (isDual) mju_gather(d->iefc_R, d->efc_R, d->map_iefc2efc, d->nefc);\n"), "rule=R-ISLAND-COPY construct=mj_projectConstraint:iefc_R~efc_R")
+mut("c09-regather-before-write", "C09", CC, "    mj_makeImpedance(m, d);\n\n" + PC_OLD, PC_OLD + "    mj_makeImpedance(m, d);\n", "rule=R-ISLAND-COPY construct=mj_projectConstraint")
+mut("c09-ok-regather-early-out", "C09", CC, PC_OLD, "    // re-gather island D/R\n    if (d->nisland == 0) {\n      if (isDual) mj_makeAR(m, d);\n      return;\n    }\n"
+    "    mju_gather(d->iefc_D, d->efc_D, d->map_iefc2efc, d->nefc);\n    mju_gather(d->iefc_R, d->efc_R, d->map_iefc2efc, d->nefc);\n", None)
+mut("c09-ok-regather-scatter-form", "C09", CC, PC_OLD, PC_OLD.replace("mju_gather(d->iefc_D, d->efc_D, d->map_iefc2efc, d->nefc);", "mju_scatter(d->iefc_D, d->efc_D, d->map_efc2iefc, d->nefc);"), None)
+
 # ---- C30
 mut("c30-move-check", "C30", FW, "  mj_checkPos(m, d);\n  mj_checkVel(m, d);\n  mj_forward(m, d);\n  mj_checkAcc(m, d);", "  mj_checkPos(m, d);\n  mj_forward(m, d);\n  mj_checkVel(m, d);\n  mj_checkAcc(m, d);", "rule=R-MUSTPASS")
 mut("c30-no-autoreset-guard", "C30", FW, "      mj_warning(d, mjWARN_BADQVEL, i);\n      if (!mjDISABLED(mjDSBL_AUTORESET)) {\n        mj_resetData(m, d);\n      }", "      mj_warning(d, mjWARN_BADQVEL, i);\n      mj_resetData(m, d);", "rule=R-CHECK construct=mj_checkVel")
